@@ -4,7 +4,7 @@
    (one division by the multiplier).  RGBA of the lightness plot: 1e-9 absolute.
    Where the property leaves freedom (nearest cell on a tie when a filter / colour field lives on
    another resolution; which remaining component set.pop() picks) every admissible result passes. *)
-From DF Require Import Prelude Constants_gen Region Mesh Plot.
+From DF Require Export Prelude Constants_gen Region Mesh Plot.
 Open Scope Q_scope.
 
 Definition coord_tol : Q := 1 # 1000000000000.      (* 1e-12 *)
